@@ -74,7 +74,30 @@ def _model(kind: str, opset: int) -> onnx.ModelProto:
 
 TABLE = [(k, o) for o in OPSETS for k in KINDS]
 MODELS = [_model(k, o).SerializeToString() for k, o in TABLE]
-TRANSFORMS = ["optimize", "convert18", "proto2python", "script"]
+TRANSFORMS = ["optimize", "convert18", "proto2python", "script", "convert21"]
+
+
+def _conv_models():
+    """models at opsets 18..20 for up-conversion to 21: some need an adapter (GridSample, DFT: 19->20; GroupNormalization: 20->21),
+    the others are plain; nodes and values are unnamed / minimally named so that a naming pass run by mistake shows"""
+    N = oh.make_node
+    out = []
+
+    def mk(name, nodes, ins, outs, opset, inits=()):
+        g = oh.make_graph(nodes, name, [oh.make_tensor_value_info(n, TP.FLOAT, sh) for n, sh in ins],
+                          [oh.make_tensor_value_info(n, TP.FLOAT, sh) for n, sh in outs], list(inits))
+        out.append((f"{name}@{opset}", oh.make_model(g, opset_imports=[oh.make_opsetid("", opset)], ir_version=9).SerializeToString()))
+    for opset in (18, 19, 20):
+        mk("relu_neg", [N("Relu", ["x"], ["t"]), N("Neg", ["t"], ["y"])], [("x", [2, 3])], [("y", [2, 3])], opset)
+        mk("add_mul", [N("Add", ["x", "x"], ["t"]), N("Mul", ["t", "x"], ["y"])], [("x", [2])], [("y", [2])], opset)
+    mk("gridsample", [N("GridSample", ["x", "g"], ["y"], mode="bilinear")], [("x", [1, 1, 2, 2]), ("g", [1, 1, 2, 2])], [("y", [1, 1, 1, 2])], 19)
+    mk("dft", [N("DFT", ["x"], ["y"], axis=1)], [("x", [1, 4, 1])], [("y", [1, 4, 2])], 19)
+    mk("groupnorm", [N("GroupNormalization", ["x", "s", "b"], ["y"], num_groups=2)], [("x", [1, 4, 2])], [("y", [1, 4, 2])], 20,
+       [nh.from_array(np.array([1.0, 2.0], dtype=np.float32), "s"), nh.from_array(np.array([0.5, -1.0], dtype=np.float32), "b")])
+    return out
+
+
+CONV_MODELS = _conv_models()
 
 # script sources for the converter: the same small vocabulary of names (scale, k, t, c) occurs as a Python constant bound to a
 # local in some scripts and as a tensor parameter / intermediate in others; element types differ between scripts
@@ -96,7 +119,7 @@ _COUNTER = [0]
 
 
 def table(t: str):
-    return SCRIPT_SRCS if t == "script" else MODELS
+    return SCRIPT_SRCS if t == "script" else [m for _, m in CONV_MODELS] if t == "convert21" else MODELS
 
 
 def transform(name: str, mb) -> bytes:
@@ -126,9 +149,9 @@ def transform(name: str, mb) -> bytes:
     if name == "optimize":
         from onnxscript import optimizer
         return optimizer.optimize(m).SerializeToString(deterministic=True)
-    if name == "convert18":
+    if name in ("convert18", "convert21"):
         from onnxscript import version_converter
-        r = version_converter.convert_version(m, 18, fallback=False)
+        r = version_converter.convert_version(m, int(name[-2:]), fallback=False)
         return (r if r is not None else m).SerializeToString(deterministic=True)
     if name == "proto2python":
         import onnxscript
@@ -185,7 +208,8 @@ def run_history(ti: int, hist, target: int):
         _safe(t, tb[h])
     got = _safe(t, tb[target])
     want = baselines()[f"{t}:{target}"]
-    label = (lambda i: SCRIPT_SRCS[i][0]) if t == "script" else (lambda i: f"{TABLE[i][0]}@{TABLE[i][1]}")
+    label = ((lambda i: SCRIPT_SRCS[i][0]) if t == "script" else (lambda i: CONV_MODELS[i][0]) if t == "convert21"
+             else (lambda i: f"{TABLE[i][0]}@{TABLE[i][1]}"))
     LAST_OBSERVED = {"transformation": t, "history": [label(h) for h in hist], "target": label(target), "fresh": want, "after_history": got}
     return got == want
 
@@ -220,9 +244,12 @@ def _ob(ti, hlen, first_opset=None, tiers=("quick", "thorough")):
         "functions": {"optimize": ["onnxscript.optimizer:optimize", "onnxscript.optimizer._constant_folding:ReferenceEvaluator"],
                       "convert18": ["onnxscript.version_converter:convert_version"],
                       "proto2python": ["onnxscript.backend.onnx_export:export2python"],
-                      "script": ["onnxscript._internal.converter:Converter", "onnxscript._internal.main:script"]}[TRANSFORMS[ti]],
+                      "script": ["onnxscript._internal.converter:Converter", "onnxscript._internal.main:script"],
+                      "convert21": ["onnxscript.version_converter:convert_version", "onnxscript.version_converter._version_converter:_VersionConverter"]}[TRANSFORMS[ti]],
         "bounds": (f"history of {hlen} script(s) and a target from a table of {n} script sources sharing a vocabulary of names (constants in "
                    "some, tensors in others), all symbolic; fresh-process baselines") if TRANSFORMS[ti] == "script" else
+                  (f"history of {hlen} model(s) and a target from a table of {n} models at opsets 18..20 (plain and adapter-needing: GridSample, DFT, "
+                   "GroupNormalization) converted to 21, all symbolic; fresh-process baselines") if TRANSFORMS[ti] == "convert21" else
                   (f"history of {hlen} model(s) and a target from a {n}-model table ({len(KINDS)} operator kinds x opsets {OPSETS}), all symbolic; "
                    "fresh-process baselines"),
         "stubs": [],
@@ -230,7 +257,7 @@ def _ob(ti, hlen, first_opset=None, tiers=("quick", "thorough")):
 
 
 OBLIGATIONS = (
-    [_ob(0, 1, fo) for fo in range(len(OPSETS))] + [_ob(1, 1), _ob(2, 1), _ob(3, 1), _ob(3, 2)]
+    [_ob(0, 1, fo) for fo in range(len(OPSETS))] + [_ob(1, 1), _ob(2, 1), _ob(3, 1), _ob(3, 2), _ob(4, 1), _ob(4, 2)]
     + [_ob(0, 2, fo, tiers=("thorough",)) for fo in range(len(OPSETS))]
 )
 
